@@ -201,7 +201,7 @@ pub fn explorer_plan(prop: &str, thorough: bool) -> Option<Plan> {
             Plan {
                 profile: p,
                 cases: (8000, 120000),
-                required: &["opt_empty", "opt_single_bucket", "opt_explicit_trees", "opt_auto_trees", "opt_capacity_checked", "tr_trees_added", "tr_trees_removed"],
+                required: &["opt_empty", "opt_single_bucket", "opt_explicit_trees", "opt_auto_trees", "opt_capacity_checked", "opt_search_returns_a_result", "tr_trees_added", "tr_trees_removed"],
                 custom_gen: None,
                 rule: "case = explorer history whose build options are re-drawn between rounds (tree count grows and shrinks, capacity around the item count, dimension 1 included); after every build Reader-visible tree count, bucket sizes and searchability are compared with the request; non-trivial+distinct = distinct forest shapes with splits",
             }
